@@ -198,7 +198,9 @@ func PodsFromWorkloadObject(workload interface{}, kind string) ([]*Pod, error) {
 		replicas = getReplicas(obj.Spec.Replicas)
 		workloadName = obj.Name
 		workloadNamespace = obj.Namespace
-		podTemplate = *obj.Spec.Template
+		if obj.Spec.Template != nil { // template is optional in the ReplicationController object
+			podTemplate = *obj.Spec.Template
+		}
 		APIVersion = obj.APIVersion
 	case parser.CronJob:
 		obj := workload.(*batchv1.CronJob)
